@@ -260,10 +260,11 @@ func runC05(c *Check) {
 	c.MinInstances("C05-R1", 2)
 	c.MinInstances("C05-R3", 5)
 	ruleRestartReconciliation(c, p, "C05-R2")
-	ruleReexecutionAccepted(c)
+	ruleReexecutionAccepted(c, "C05-R4")
 	rulePersistedStateLoadable(c, p, "C05-R5")
 	ruleMarksAfterItems(c, p, "C05-R6")
 	ruleSeenCensus(c, p, "C05-R9", steps)
+	ruleFinalisationRepeatable(c, "C05-R10")
 	ruleSinglePurposeWriters(c, p, "C05-R7")
 	ruleWritersRefuseNothing(c, p, "C05-R8")
 }
@@ -273,8 +274,7 @@ func runC05(c *Check) {
 // state root of the recorded (older) state while the executor already holds the newer state.
 // The repository's executor must therefore not refuse ExecuteTxs on a comparison involving
 // prevStateRoot: no branch that leads only to error returns may depend on that parameter.
-func ruleReexecutionAccepted(c *Check) {
-	rule := "C05-R4"
+func ruleReexecutionAccepted(c *Check, rule string) {
 	c.Doc(rule, "GA: in the repository's executor, no refusing branch of ExecuteTxs depends on the prevStateRoot parameter (re-execution after a crash between execution and the state write must be accepted).")
 	tp := c.Mod(ModTestapp)
 	n := 0
@@ -323,6 +323,70 @@ func ruleReexecutionAccepted(c *Check) {
 	}
 	if n == 0 {
 		c.Unk(rule, "executors", "", "", "anchor lost: no ExecuteTxs implementation in the application module")
+	}
+	c.MinInstances(rule, 1)
+}
+
+// ruleFinalisationRepeatable (C05-R10 / C15-R6 / C07-R11): the DA includer finalises a height in the
+// execution layer first and records it in the node's store afterwards. After a crash in between,
+// the restarted node finds the height DA-included again and finalises it a second time. The
+// repository's executor therefore accepts SetFinal for a height it has already finalised: no
+// branch that leads only to error returns depends on what the executor's datastore holds (the
+// remembered finalised height), only on the request itself.
+func ruleFinalisationRepeatable(c *Check, rule string) {
+	c.Doc(rule, "GA: in the repository's executor, no refusing branch of SetFinal depends on what its datastore holds (e.g. the finalised height recorded before) other than through a strict ordering test: after a crash between the execution layer's finalisation and the node's record of it the same height is finalised again, and a refusal halts the node at every start.")
+	tp := c.Mod(ModTestapp)
+	n := 0
+	for _, fn := range tp.Funcs {
+		if fn.Parent() != nil || fn.Name() != "SetFinal" || fn.Signature.Recv() == nil || !tp.InRepo(fn) {
+			continue
+		}
+		pk := fnPkg(fn)
+		if pk == nil || !strings.HasPrefix(pk.Pkg.Path(), rootPath) || strings.Contains(pk.Pkg.Path(), "/core/") {
+			continue
+		}
+		n++
+		g := BuildECFG(tp, fn, ExpandOpts{MaxDepth: 1})
+		c.NoteGraph(g)
+		var bad *Node
+		for _, e := range g.Select(func(x *Node) bool { return x.Kind == NTrue || x.Kind == NFalse }) {
+			allErr, any := true, false
+			reach := g.Reachable([]*Node{e}, nil)
+			for _, x := range g.Exits {
+				if reach[x] {
+					any = true
+					if g.ExitClass(x) != rcA {
+						allErr = false
+					}
+				}
+			}
+			if !any || !allErr {
+				continue
+			}
+			t, _ := CondTerm(e)
+			// a comparison of the request with stored contents (not the error test of the read itself)
+			isErrTest := t.Op == "bin" && (t.Name == "!=" || t.Name == "==") && t.Args[1].Name == "nil" && t.Args[0].V != nil && t.Args[0].V.Type().String() == "error"
+			// a strict ordering test against the stored value cannot refuse a repetition of the
+			// same height (only an older one, which the node never asks for)
+			if _, op, _, okc := canonCmp(t, e.Kind == NTrue); okc && (op == "<" || op == ">") {
+				continue
+			}
+			if !isErrTest && tp.DeepContains(t, func(x *Term) bool {
+				return x.Op == "invoke" && strings.Contains(x.Name, "go-datastore") && (strings.HasSuffix(x.Name, ".Get") || strings.HasSuffix(x.Name, ".Has") || strings.HasSuffix(x.Name, ".Query") || strings.HasSuffix(x.Name, ".GetSize"))
+			}, 2) {
+				bad = e
+			}
+		}
+		inst := fnShort(fn) + " ⟂ never-refuses-on-stored-contents"
+		if bad == nil {
+			c.OK(rule, inst, fnName(fn), tp.Pos(fn.Pos()), "no refusing branch of SetFinal depends on the executor's stored contents", true)
+		} else {
+			t, _ := CondTerm(bad)
+			c.Bad(rule, inst, fnName(fn), tp.InstrPos(bad.In), "SetFinal refuses on "+trunc(t.String(), 120)+", which depends on what the executor stored before: after a crash between SetFinal(h) and the node's record of the DA-included height the restart finalises h again; the refusal is reported as an unrecoverable error and the node halts at every start", nil)
+		}
+	}
+	if n == 0 {
+		c.Unk(rule, "executors", "", "", "anchor lost: no SetFinal implementation in the application module")
 	}
 	c.MinInstances(rule, 1)
 }
